@@ -20,7 +20,7 @@ def _ev(**kw):
 
 def reset():
     EVENTS.clear()
-    STATE.update(files={}, units={}, ents={}, depth=0, reported=False, in_writeout=False, outdir=None, deps_done=False)
+    STATE.update(files={}, units={}, ents={}, depth=0, reported=False, in_writeout=False, outdir=None, deps_done=False, find_override=None)
 
 
 def _file_id(path):
@@ -68,7 +68,7 @@ def install():
     orig_find = fp.find_all_files
 
     def find_all_files(settings):
-        res = orig_find(settings)
+        res = (STATE.get("find_override") or orig_find)(settings)      # C12 supplies the enumeration order
         if STATE["on"]:
             order = sorted(res)
             exts = set(settings.extensions) | set(settings.fixed_extensions)
